@@ -158,6 +158,9 @@ class MTypeBool(MTypeBase):
 
     @classmethod
     def new_node(cls, value: T.Optional[str] = None) -> BaseNode:
+        if isinstance(value, str):
+            # Values given on the command line arrive as strings
+            value = value.lower() not in {'false', '0', 'no', ''}
         return BooleanNode(Token('', '', 0, 0, 0, None, bool(value)))
 
     @classmethod
